@@ -429,6 +429,8 @@ func (w *binaryWriter) Finish() error {
 		if w.err = w.emit(seq); w.err != nil {
 			return w.err
 		}
+		// Buffer the next batch too, so that it gets its own version marker and symbol table.
+		w.bufs.push(&datagram{})
 	}
 
 	return nil
